@@ -160,7 +160,9 @@ def gen_program(rng):
                 vals.append(i)
             else:
                 add({'k': 'write', 'm': m, 'a': pick(), 'd': pick(),
-                     'e': pick() if rng.random() < 0.4 else None})
+                     'e': pick() if rng.random() < 0.4 else None,
+                     # the user first tries to write an Output wire into the memory (refused)
+                     'refused_first': rng.random() < 0.3})
             continue
         if r < 0.30:
             a = pick()
@@ -245,6 +247,8 @@ def gen_case(streams, tier):
             'call': g.choice(['single', 'bulk', 'bulk_dstnets']),
             'scheds': gen_scheds(streams, k),
             'rewrite': g.choice([None, 'optimize', 'optimize', 'one_bit_selects', 'two_way_concat']),
+            # a first TimingAnalysis whose user-supplied delay function raises on its k-th call
+            'abort_at': g.randrange(1, 12) if g.random() < 0.3 else None,
             'sched': world.gen_sched(streams, with_iter=False, noise=False)}
 
 
@@ -259,10 +263,13 @@ class Built(object):
         self.mems = {}
 
 
-def build(prog):
+def build(prog, implicit=False):
+    """implicit: build into whatever the working block is, without naming it (what a user's
+    script does), instead of into a Block of our own."""
+    import contextlib
     import pyrtl
     b = Built()
-    b.block = pyrtl.Block()
+    b.block = pyrtl.working_block() if implicit else pyrtl.Block()
     named = set()
     nexted = set()
 
@@ -294,7 +301,8 @@ def build(prog):
         except KeyError:
             raise HarnessError('program refers to a non-value statement %r' % (i,))
 
-    with pyrtl.set_working_block(b.block, no_sanity_check=True):
+    with (contextlib.nullcontext() if implicit
+          else pyrtl.set_working_block(b.block, no_sanity_check=True)):
         for st in prog:
             k = st['k']
             if k == 'in':
@@ -370,6 +378,15 @@ def build(prog):
                 m = b.mems[st['m']]
                 addr = fit(val(st['a']), m.addrwidth)
                 data = fit(val(st['d']), m.bitwidth)
+                if st.get('refused_first'):
+                    zo = pyrtl.Output(m.bitwidth, 'zo%d' % st['id'])
+                    zo <<= data
+                    try:
+                        m[addr] <<= zo
+                    except (pyrtl.PyrtlError, pyrtl.PyrtlInternalError):
+                        b.refused_ports = getattr(b, 'refused_ports', 0) + 1
+                    else:
+                        raise common.Inconclusive('a memory write of an Output wire was accepted')
                 if st.get('e') is None:
                     m[addr] <<= data
                 else:
@@ -665,6 +682,10 @@ def pstr(path):
 # judging one build
 # ---------------------------------------------------------------------------------------
 
+class _UserAbort(Exception):
+    """Raised by a user-supplied gate delay function (fault 'analysis_aborted')."""
+
+
 class _Crash(Exception):
     def __init__(self, violation):
         Exception.__init__(self)
@@ -680,7 +701,10 @@ def call(what, tags, fn, *a, **k):
     except (HarnessError, common.RunTimeout):
         raise
     except pyrtl.PyrtlError as e:
-        raise HarnessError('valid design refused by %s: %s' % (what, repr(e)[:300]))
+        # the designs come out of the construction API, so they are valid: a refusal is the
+        # analysis (or state an earlier, aborted call left behind) failing a legal call
+        raise _Crash(Violation('refusal', 'valid_design_refused_by_analysis',
+                               {'in': what, 'exc': repr(e)[:300]}, list(tags) + ['in:' + what]))
     except Exception as e:
         raise _Crash(Violation('crash', 'unexpected_exception',
                                {'in': what, 'exc': repr(e)[:300]}, list(tags) + ['in:' + what]))
@@ -1013,6 +1037,8 @@ def run(case, res):
         common.install_hash_seam(sc['hash_seed'])
         common.reset_world()
         b = build(prog)
+        if getattr(b, 'refused_ports', 0):
+            res.faults.hit('memory_port_refused_then_built', b.refused_ports)
         g = Graph(b.block)
         sig = jdigest(g.signature())
         if sig0 is None:
@@ -1025,6 +1051,24 @@ def run(case, res):
         res.probes.hit('iter_policy:%s' % sc.get('iter_policy'))
         res.log.log('builder', 'build', bi, sig)
         common.iter_seam.install(sc.get('iter_policy'), sc.get('iter_seed', 0))
+        if case.get('abort_at') is not None:
+            import pyrtl
+            left = [case['abort_at']]
+
+            def _wrap(fn):
+                def f(x):
+                    left[0] -= 1
+                    if left[0] == 0:
+                        raise _UserAbort()
+                    return fn(x)
+                return f
+            funcs = {op: _wrap(fn) for op, fn in custom_funcs(case['custom']).items()}
+            try:
+                pyrtl.TimingAnalysis(block=b.block, gate_delay_funcs=funcs)
+            except _UserAbort:
+                res.faults.hit('analysis_aborted_by_user_function')
+            except pyrtl.PyrtlError:
+                pass
         try:
             v, rep = check_timing(case, b, g, res, bi)
             if v is not None:
@@ -1170,6 +1214,16 @@ def candidates(case):
     if case.get('call') != 'single':
         c = copy.deepcopy(case)
         c['call'] = 'single'
+        yield c
+    for key in ('abort_at', 'rewrite'):
+        if case.get(key) is not None:
+            c = copy.deepcopy(case)
+            c[key] = None
+            yield c
+    if any(st.get('refused_first') for st in case['program']):
+        c = copy.deepcopy(case)
+        for st in c['program']:
+            st.pop('refused_first', None)
         yield c
     prog = case['program']
     # sinks first (outputs, writes, nexts), then from the end
